@@ -564,7 +564,7 @@ def _model_cut(canon_calls, k: int):
 
 def run_history(history: list, crash_points: bool = True, only=None) -> dict:
     """Base run (trace + view + raw tree after every event) and, from the snapshot before each plain step, every
-    crash point of it.  A history item is a step or ['crash', step, where, cut]: the step is killed on the live tree
+    crash point of it (`crash_points='last'`: only of the last step).  A history item is a step or ['crash', step, where, cut]: the step is killed on the live tree
     (`where`: a float in [0, 1) = fraction of the step's micro-operations, or an int = their number) and the history
     goes on.  `only` = (i, k, cut) restricts the crash points to one (replay)."""
     root = _fresh_root()
@@ -612,7 +612,7 @@ def run_history(history: list, crash_points: bool = True, only=None) -> dict:
         trees.append(_read_tree(live))
         atoms = _atoms(calls)
         points = []
-        if crash_points:
+        if crash_points and (crash_points != 'last' or i == len(history) - 1):
             for k, op in enumerate(atoms):
                 points.append((k, False))
                 if op[0] == 'append' and len(op[2]) >= 2:
@@ -796,11 +796,21 @@ class C05(fw.Check):
             'crash-recovery histories (corpus + random: up to 3 steps are first killed at a random micro-operation, possibly '
             'inside a write, on the live tree and mostly retried), and in thorough every history of <= 4 steps over 2 projects '
             'x 2 releases. Every plain step is re-run from the snapshot before it with a process death after each completed '
-            'micro-operation and half-way through each write. One case = one (history prefix, crash point) / one step / one '
+            'micro-operation and half-way through each write (in the exhaustive set: the last step of each history — the '
+            'other steps are the last steps of its prefixes, which are in the set). One case = one (history prefix, crash point) / one step / one '
             'process death inside a history / one long-lived-reader read; distinct by (history prefix, step index, k, cut); '
             'non-trivial when the step performs at least one micro-operation. Oracle on the real views: append-only, gap-free, '
             'monotonic, implicit keys = highest listed, crashed view = previous or complete new view, nothing listed unreadable, '
-            'long-lived reader = fresh reader.')
+            'long-lived reader = fresh reader. Several writers (props/c05h.py): histories of open / publish / begin / dump / commit / '
+            'look / die events over handles (object chains created once) living in up to 4 real forked processes, 1-2 projects: 9 '
+            'hand-written interleavings + random ones (activities of long-lived and fresh handles merged at event granularity, '
+            'up to 2 process deaths) + all 154 interleavings of two writers\' trainings (thorough; 12 sampled in quick); every crash point of every commit and publish (thorough: every writing event) of the corpus '
+            'and the first random ones, explored on a forked copy of the process about to perform it; the same interleavings on '
+            'one shared volatile registry. One case = one event of one history prefix / one explored crash point; non-trivial '
+            'when it performs a micro-operation or reads. Oracle: a successful commit through any handle adds exactly one '
+            'generation to the release the handle addresses, numbered one above what a fresh reader saw right before, holding the '
+            'bytes dumped through that handle since begin; nothing else changes; look = the fresh reader\'s tag of a generation '
+            'the handle can be bound to.')
     TRUSTED = [
         'POSIX semantics assumed by the model: rename atomic, a created directory entry is visible, write may stop after '
         'any prefix; process death only (no fsync in the code: power loss is not claimed)',
@@ -818,8 +828,14 @@ class C05(fw.Check):
         'treats them; project names are plain strings (spelling variants are different projects); every history step runs '
         'like a fresh process (tag / state / artifact caches and the memoised posix.Path lookups are cleared), the '
         'long-lived reader pass keeps them')
-    ASSUMPTIONS = ['single writer (histories and crash-recovery histories, not interleavings of concurrent writers)',
-                   'uuid4 state ids are fresh']
+    TRUSTED.append(
+        'several writers: a process of the model is a real forked interpreter (its caches are its own); a process death is a '
+        'BaseException raised inside it followed by its exit; the fresh reader is a newly forked process per distinct tree (the '
+        'view is a function of the raw tree, which is read directly); crash points of an operation are explored on a forked copy '
+        'of the process (same handles, same caches) with the tree restored afterwards')
+    ASSUMPTIONS = ['writers interleave at the granularity of registry calls (any number of handles / processes); two writers racing '
+                   'between the listing and the rename of one commit are not modelled (the property quantifies over histories)',
+                   'uuid4 state ids are fresh (in the harness: a counter per process, disjoint ranges)']
 
     # ---- generation --------------------------------------------------------------------------------------------
     def _corpus(self):
@@ -1122,53 +1138,83 @@ class C05(fw.Check):
                 raise fw.MachineryError(f'harness failed on {r["history"]}: {r["machinery"]}')
         return results
 
-    # ---- volatile registry: append-only part -----------------------------------------------------------------
-    def _volatile(self, histories):
+    # ---- volatile registry -----------------------------------------------------------------------------------
+    @staticmethod
+    def _volatile_view(directory):
+        _clear_caches()
+        facts = []
+        for pkey in directory.list():
+            for rkey in directory.get(pkey).list():
+                release = directory.get(pkey).get(rkey)
+                p, v = NAMES.index(pkey), _rank(str(rkey))
+                facts.append(['rel', p, v, 'memory', 'ok'])
+                for gkey in release.list():
+                    generation = release.get(gkey)
+                    try:
+                        tag = generation.tag
+                    except Exception:  # pylint: disable=broad-except
+                        facts.append(['gen', p, v, int(gkey), 'corrupt'])
+                        continue
+                    facts.append(['gen', p, v, int(gkey), ['ok', tag.training.ordinal, [s.int for s in tag.states]]])
+                    for sid in tag.states:
+                        blob = generation.get(sid)
+                        facts.append(['state', p, v, int(gkey), sid.int, ['file', list(blob)] if blob else 'missing'])
+        return sorted(facts, key=repr)
+
+    def _volatile(self, histories, impl):
+        """the volatile registry (listing in memory, generations in a temporary directory) under the same histories:
+        step oracle on the real views; outcome, micro-operation trace of every step, final view and raw temporary
+        directory against the model (ForML.Model.RegistryVolatile)"""
         from forml.io import asset
-        from forml.provider.registry.filesystem import volatile
+        from forml.provider.registry.filesystem import posix, volatile
 
-        def view(directory):
-            _clear_caches()
-            facts = []
-            for pkey in directory.list():
-                for rkey in directory.get(pkey).list():
-                    release = directory.get(pkey).get(rkey)
-                    p, v = NAMES.index(pkey), _rank(str(rkey))
-                    facts.append(['rel', p, v, 'memory', 'ok'])
-                    for gkey in release.list():
-                        generation = release.get(gkey)
-                        try:
-                            tag = generation.tag
-                        except Exception:  # pylint: disable=broad-except
-                            facts.append(['gen', p, v, int(gkey), 'corrupt'])
-                            continue
-                        facts.append(['gen', p, v, int(gkey), ['ok', tag.training.ordinal, [s.int for s in tag.states]]])
-                        for sid in tag.states:
-                            blob = generation.get(sid)
-                            facts.append(['state', p, v, int(gkey), sid.int, ['file', list(blob)] if blob else 'missing'])
-            return sorted(facts, key=repr)
-
+        runs = []
         for hist in histories:
             hist = [s if s[0] == 'train' else s[:4] + ['file'] for s in hist if s[0] != 'crash']
             registry = volatile.Registry()
+            root = str(registry._path)  # pylint: disable=protected-access
             directory = asset.Directory(registry)
-            before = view(directory)
-            saved, uuid.uuid4 = uuid.uuid4, _Uuids(0)
+            before = self._volatile_view(directory)
+            saved_uuid4, uuids = uuid.uuid4, _Uuids(0)
+            saved = {m: getattr(posix.Registry, m) for m in ('write', 'close')}
+            outcomes, traces, sid_start = [], [], []
             try:
+                uuid.uuid4 = uuids
                 for i, step in enumerate(hist):
                     outcome = 'ok'
+                    rec = Recorder(root)
+                    sid_start.append(uuids.next)
+
+                    def wrap(method, rec=rec):
+                        orig = saved[method]
+
+                        def wrapper(self_, *a, **k):
+                            rec.begin(method)
+                            return orig(self_, *a, **k)
+
+                        return wrapper
+
                     try:
-                        if step[0] == 'publish':
-                            directory.get(NAMES[step[1]]).put(_package(NAMES[step[2]], step[3], 'file')[0])
-                        else:
-                            generation = directory.get(NAMES[step[1]]).get(_ver(step[2])).get(None)
-                            stamp = datetime.datetime(2020, 1, 1) + datetime.timedelta(seconds=step[3])
-                            accessor = asset.State(generation, [uuid.UUID(int=10**6 + j) for j in range(len(step[4]))],
-                                                   asset.Tag(training=asset.Tag.Training(stamp, step[3])))
-                            accessor.commit([accessor.dump(bytes(s)) for s in step[4]])
-                    except Exception as exc:  # pylint: disable=broad-except
-                        outcome = _err(exc)
-                    after = view(directory)
+                        for m in saved:
+                            setattr(posix.Registry, m, wrap(m))
+                        with rec:
+                            try:
+                                if step[0] == 'publish':
+                                    directory.get(NAMES[step[1]]).put(_package(NAMES[step[2]], step[3], 'file')[0])
+                                else:
+                                    generation = directory.get(NAMES[step[1]]).get(_ver(step[2])).get(None)
+                                    stamp = datetime.datetime(2020, 1, 1) + datetime.timedelta(seconds=step[3])
+                                    accessor = asset.State(generation, [uuid.UUID(int=10**6 + j) for j in range(len(step[4]))],
+                                                           asset.Tag(training=asset.Tag.Training(stamp, step[3])))
+                                    accessor.commit([accessor.dump(bytes(s)) for s in step[4]])
+                            except Exception as exc:  # pylint: disable=broad-except
+                                outcome = _err(exc)
+                    finally:
+                        for m, f in saved.items():
+                            setattr(posix.Registry, m, f)
+                    outcomes.append(outcome)
+                    traces.append(_canon_calls(rec.calls))
+                    after = self._volatile_view(directory)
                     self.case(('volatile', repr(hist[: i + 1])), f'volatile {step[0]} -> {outcome}', nontrivial=True)
                     for what, sig in oracle_step(step, outcome, before, after):
                         if sig == 'publish-wrong-content':  # packages are not stored by the volatile registry
@@ -1178,8 +1224,46 @@ class C05(fw.Check):
                         self.violate('volatile registry: ' + what, {'history': hist[: i + 1], 'registry': 'volatile'},
                                      sig if sig == 'release-not-monotonic' else 'volatile-' + sig)
                     before = after
+                runs.append({'history': hist, 'outcomes': outcomes, 'traces': traces, 'sid_start': sid_start,
+                             'view': before, 'tree': _read_tree(root)})
             finally:
-                uuid.uuid4 = saved
+                uuid.uuid4 = saved_uuid4
+        if impl is None:
+            return
+        # model side; one spelling per (project, version) — the model has one directory per version
+        lines, kept = [], []
+        tag = sexp.dumps(['impl', bool(impl[0]), bool(impl[1])])
+        for r in runs:
+            spelt: dict = {}
+            if any(spelt.setdefault((s[2] if s[0] == 'publish' else s[1], _rank(s[3] if s[0] == 'publish' else s[2])),
+                                    _ver(s[3] if s[0] == 'publish' else s[2])) != _ver(s[3] if s[0] == 'publish' else s[2])
+                   for s in r['history']):
+                continue
+            lines.append(f'(vrun {tag} {sexp.dumps(self._model_events(r["history"], r["sid_start"]))})')
+            kept.append(r)
+        for r, ans in zip(kept, self.model(lines)):
+            m = sexp.num(sexp.loads(ans))
+            hist = r['history']
+            where = {'history': hist, 'registry': 'volatile'}
+            if m == 'bad-op' or m[0] != 'ok':
+                self.diverge('model rejected the request', where, None, m)
+                continue
+            for i, (mo, outcome, trace) in enumerate(zip(m[1], r['outcomes'], r['traces'])):
+                mkind, mcalls = self._model_calls(mo)
+                if mkind != outcome:
+                    self.diverge('volatile: step outcome', {'history': hist[: i + 1], 'registry': 'volatile'}, outcome, mkind)
+                elif mcalls != trace:
+                    self.diverge('volatile: micro-operation trace', {'history': hist[: i + 1], 'registry': 'volatile'}, trace, mcalls)
+            mview = sorted([f + ['ok'] if f[0] == 'rel' else f for f in m[2]], key=repr)
+            if mview != r['view']:
+                self.diverge('volatile: reader view after the history', where, r['view'], mview)
+            elif self._model_tree(m[4]) != r['tree']:
+                mt = self._model_tree(m[4])
+                self.diverge('volatile: raw temporary directory after the history', where,
+                             [e for e in r['tree'] if e not in mt][:3] + [e for e in mt if e not in r['tree']][:3], None)
+            if m[3] != 'true':
+                self.diverge('volatile: model tree is not well formed (Fs.WF)', where, None, m[3])
+        self.extra['volatile_histories_compared'] = len(kept)
 
     # ---- entry points ----------------------------------------------------------------------------------------
     def correspondence(self):
@@ -1201,8 +1285,10 @@ class C05(fw.Check):
         ctx = multiprocessing.get_context('fork')
         ncrash = nkilled = 0
         with ctx.Pool(min(14, os.cpu_count() or 2)) as pool:
+            # the exhaustive set contains every prefix of each of its histories: the crash points of all but the last
+            # step of a history are those of its prefixes, explored there
             for batch, mode in ((histories[:nlong], 'long-lived'), (histories[nlong:], True), (recovery, True),
-                                (exhaustive, True)):
+                                (exhaustive, 'last')):
                 for start in range(0, len(batch), 400):
                     results = self._run_batch(batch[start:start + 400], pool, mode)
                     for r in results:
@@ -1214,9 +1300,61 @@ class C05(fw.Check):
         self.extra['crash_recovery_histories'] = len(recovery)
         self.extra['crashed_runs'] = ncrash
         self.extra['process_deaths_inside_histories'] = nkilled
-        self._volatile(self._corpus() + [self._random_history() for _ in range(self.n(20, 200))])
+        self._handles(impl)
+        self._volatile(self._corpus() + [self._random_history() for _ in range(self.n(20, 200))], impl)
         if not self.quick:
             self._fresh_process(histories[:7] + histories[7:7 + 30] + recovery[:20])
+
+    def _handles(self, impl):
+        """several writers: histories over long-lived and fresh handles in several (real) processes, interleaved at the
+        granularity of registry calls, with process deaths; every crash point of the first ones"""
+        from props import c05h
+
+        corpus = c05h.corpus()
+        every = c05h.exhaustive_interleavings()  # 84 + 70 interleavings of two writers' events: all in thorough, a sample in quick
+        rnd = (every if not self.quick else self.rng.sample(every, 12)) \
+            + [c05h.random_handles(self.rng) for _ in range(self.n(60, 500))]
+        self.rng.shuffle(rnd)
+        nfull = self.n(6, 80)  # every crash point of every commit and publish of these (thorough: also of the dumps)
+        which = ('commit', 'publish') if self.quick else True
+        jobs = [(h, which, None) for h in corpus + rnd[:nfull]] + [(h, False, None) for h in rnd[nfull:]]
+        nposix = len(jobs)
+        # the same interleavings of handles on one volatile registry (one process; step oracle on the real views)
+        jobs += [(h, 'volatile', None) for h in corpus + rnd[:self.n(20, 200)]]
+        ctx = multiprocessing.get_context('fork')
+        with ctx.Pool(min(14, os.cpu_count() or 2)) as pool:
+            results = list(pool.imap(c05h.worker, jobs, chunksize=1))
+        nviol = len(self.violations)
+        for r in results:
+            if 'machinery' in r:
+                raise fw.MachineryError(f'harness failed on {r["history"]}: {r["machinery"]}')
+            c05h.judge(self, r)
+        # a failing interleaving is reported by the smallest history that still fails (first witness per root cause)
+        seen = set()
+        for n in range(nviol, len(self.violations)):
+            v = self.violations[n]
+            if v.signature in seen or not isinstance(v.witness, dict) or 'handles' not in v.witness:
+                continue
+            seen.add(v.signature)
+            small = c05h.shrink(v.witness, v.signature) if len(seen) <= 4 else None
+            if small is not None and len(small[1]['handles']) < len(v.witness['handles']):
+                self.violations[n] = fw.Violation(small[0], small[1], v.signature, {'shrunk_from': len(v.witness['handles'])})
+        # self-test of the diff: the same real run against the other model variant must be reported as diverging
+        before = len(self.divergences)
+        c05h.compare(self, results[:1], (not impl[0], impl[1]))
+        kinds = {d.what for d in self.divergences[before:]}
+        del self.divergences[before:]
+        if 'handles: micro-operation trace' not in kinds or not any('after a crash' in k for k in kinds):
+            raise fw.MachineryError(f'planted model divergence not detected by the handle correspondence diff (got {sorted(kinds)})')
+        self.extra['planted_handle_divergence_selftest'] = sorted(kinds)
+        results, vresults = results[:nposix], results[nposix:]
+        for start in range(0, len(results), 100):
+            c05h.compare(self, results[start:start + 100], impl)
+        self.extra['volatile_handle_histories'] = len(vresults)
+        self.extra['handle_histories'] = len(results)
+        self.extra['handle_events'] = sum(len(r['events']) for r in results)
+        self.extra['handle_crashed_runs'] = sum(len(r['crashes']) for r in results)
+        self.extra['handle_process_deaths'] = sum(len(r['died']) for r in results)
 
     def _planted_divergence(self, impl):
         """Self-test of the diff: the same real run compared with the *other* model variant (tag / package written in
@@ -1255,7 +1393,8 @@ class C05(fw.Check):
                 'sys.path.insert(0, sys.argv[2]); from props import c05;'
                 'print(json.dumps([c05._read_view(r) for r in sys.argv[3:]]))')
         out = subprocess.run([sys.executable, '-W', 'ignore', '-c', code, fw.REPO, os.path.join(fw.VERIF, 'harness')]
-                             + [j[0] for j in jobs], capture_output=True, text=True, timeout=600, check=False)
+                             + [j[0] for j in jobs], capture_output=True, text=True, timeout=600, check=False,
+                             cwd=_BASE)  # forml drops an (empty) `<script>.log` into the working directory
         if out.returncode != 0:
             raise fw.MachineryError('fresh-process reader failed: ' + out.stderr[-800:])
         views = json.loads(out.stdout.strip().splitlines()[-1])
@@ -1285,13 +1424,31 @@ class C05(fw.Check):
                     continue
                 tried += 1
                 self._judge(r)
-        self.notes.append(f'failing-input search ({reason}): {tried} neighbouring histories x all crash points')
+        # handle histories: every crash point of every writing event of the diverging interleavings, their prefixes, the
+        # same events with every handle in one process, and on the volatile registry
+        from props import c05h
+
+        hseeds = []
+        for d in self.divergences:
+            if isinstance(d.case, dict) and 'handles' in d.case and d.case['handles'] not in hseeds:
+                hseeds.append(d.case['handles'])
+        htried = 0
+        for hist in hseeds[:8]:
+            one_proc = [e[:2] + [0] + e[3:] if e[0] == 'open' else e for e in hist]
+            for variant, mode in ((hist, True), (one_proc, False), (hist, 'volatile')):
+                r = c05h.worker((variant, mode, None))
+                if 'machinery' in r:
+                    continue
+                htried += 1
+                c05h.judge(self, r)
+        self.notes.append(f'failing-input search ({reason}): {tried} neighbouring histories x all crash points, '
+                          f'{htried} handle interleavings')
 
     def replay_finding(self, entry):
         """Re-run a witness; for a listed entry only a violation of *its* root cause (signature) counts as its return —
         any other violation on the same input is found and reported by the regular run (the witnesses are in the corpus)."""
         w = entry['witness']
-        if 'history' not in w:
+        if 'history' not in w and 'handles' not in w:
             return None
         want = entry.get('signature')
         found = self._replay(w)
@@ -1301,10 +1458,25 @@ class C05(fw.Check):
         return None
 
     def _replay(self, w) -> list:
-        hist = w['history']
         before = len(self.violations)
+        if 'handles' in w:
+            from props import c05h
+
+            for name in NAMES:
+                for text in SPELLINGS:
+                    for kind in ('file', 'dir'):
+                        _package(name, text, kind)
+            crash = w.get('crash')
+            if w.get('registry') == 'volatile':
+                c05h.judge(self, c05h.run_handles_volatile(w['handles']))
+            else:
+                c05h.judge(self, c05h.run_handles(w['handles'], crash_points=False, only=crash), crash_only=crash is not None)
+            found = self.violations[before:]
+            del self.violations[before:]
+            return found
+        hist = w['history']
         if w.get('registry') == 'volatile':
-            self._volatile([hist])
+            self._volatile([hist], None)
         elif w.get('reader') == 'long-lived':
             r = run_history(hist, crash_points=False)
             r['long_lived'] = run_long_lived(hist)
